@@ -162,3 +162,19 @@ PROPS['C17'] = dict(
          'the returned (lengths, boundaries) are judged by the relation Strs!ShardOK (any valid sharding is accepted); distinct = distinct inputs, non-trivial = at least 2 keys',
     assumptions=TRUST,
 )
+
+TPB = dict(module='Trace_PbFrame', cfg='Trace_PbFrame.cfg')
+PROPS['C06'] = dict(
+    trace=TPB, mc=dict(quick=[], thorough=[]), need_kinds=['pb'],
+    rule='a case is one stream history: 1-4 frames marshalled back to back (legacy Marshal/Unmarshal messages with and without GetVersion, real protobuf BytesValue/StringValue; bodies of 0,1,2,31,32,33,100,300 and 4000-6000 bytes; '
+         'versions of length 0,1,5,9,15,16 incl. embedded and leading NUL and non-ASCII bytes), then Unmarshal of each frame into REUSED destination messages through a scripted reader (whole, 1 byte, fixed and mixed chunk sizes), '
+         'ReadHeader on the last frame and a final read at end of stream; every call is one trace event (bytes written, n, error class, version, re-encoded message, bytes consumed) judged by Trace_PbFrame; distinct = distinct histories',
+    assumptions=TRUST + ['proto.Marshal/Unmarshal of the message itself is trusted; the message encoding is opaque to the specification', 'the io.Writer/io.Reader obey their contracts'],
+)
+PROPS['C07'] = dict(
+    trace=TPB, mc=dict(quick=[], thorough=[]), need_kinds=['pb'], rlimit_as=24 << 30,
+    rule='fault enumeration through the specification\'s environment actions: for 10 (thorough 60) messages EVERY cut point 0 <= k < len(frame)+8 with EOF and with an injected read error (bodies ~4 KiB: every 97th plus 4 KiB boundaries), '
+         'ReadHeader at the cut points, EVERY writer failure point on the header write and on the body write (partial acceptance), the truncated output read back; corrupt headers: header-size in {0,31,33,2^32,2^63,2^64-1,...} and '
+         'body-size in {avail-1,avail,avail+1,2^24,2^31,2^40,2^47,2^62,2^63-1,2^63,2^64-1}; arbitrary bytes; random fault schedules over several frames; judged by Trace_PbFrame (outcome relation from io.ReadFull semantics); distinct = distinct histories',
+    assumptions=TRUST + ['proto.Marshal/Unmarshal of the message itself is trusted', 'the driver runs under RLIMIT_AS so that an allocation from an untrusted size kills the driver (reported as crash), not the sandbox'],
+)
